@@ -15,6 +15,34 @@ Lemma set_nth_app_last {A} (pre : list A) (x y : A) :
   set_nth (pre ++ [x]) (length pre) y = pre ++ [y].
 Proof. induction pre as [|a pre IH]; simpl; [reflexivity | now rewrite IH]. Qed.
 
+(* ---- the loop over the reported footnotes (pages.go 704-717) *)
+Lemma report_loop_le ff ov : forall n i, report_loop ff ov i n <= n.
+Proof.
+  induction n as [|n IH]; intros i; cbn [report_loop]; [lia|].
+  destruct (ov i && (negb ff || negb (i =? 0))); [lia|]. specialize (IH (S i)). lia.
+Qed.
+
+(* with the `i != 0` guard the first reported footnote is placed: the list
+   strictly shrinks on every page that receives reported footnotes *)
+Lemma report_loop_first_placed ov n : 0 < n -> report_loop true ov 0 n < n.
+Proof.
+  destruct n as [|n]; [lia|]. intros _. cbn [report_loop negb orb Nat.eqb]. rewrite andb_false_r.
+  pose proof (report_loop_le true ov n 1). lia.
+Qed.
+
+(* without it a footnote that always overflows is reported again for ever *)
+Lemma report_loop_unguarded_stuck n : report_loop false (fun _ => true) 0 n = n.
+Proof. destruct n; reflexivity. Qed.
+
+(* H_fn_blank of the section below is a theorem for the blank pages of /repo *)
+Lemma blank_of_report_loop_ok overflow flags : forall fn fn' fl,
+  blank_of_report_loop true overflow flags fn = (fn', fl) -> fn' <= fn /\ (0 < fn -> fn' < fn).
+Proof.
+  intros fn fn' fl H. unfold blank_of_report_loop in H. inversion H; subst. split.
+  - apply report_loop_le.
+  - apply report_loop_first_placed.
+Qed.
+
 Section Proofs.
   Variable R : Type.
   Variable R_eqb : R -> R -> bool.
@@ -303,3 +331,24 @@ Section Proofs.
   Qed.
 
 End Proofs.
+
+(* The first round terminates for the page maker whose blank pages run the loop
+   over the reported footnotes of /repo (report_loop with the `i != 0` guard):
+   only PROGRESS and the bound on the number of footnotes are left as hypotheses. *)
+Theorem page_loop_terminates_report_loop :
+  forall (R : Type) (R_eqb : R -> R -> bool)
+         (layout_content : option R -> nat -> (option R * brk * nat) * (bool * bool))
+         (overflow : nat -> nat -> bool) (flags : nat -> bool * bool) (state_changed : nat -> bool)
+         (mu : option R -> nat) (F : nat),
+    (forall r fn r' b fn' fl, layout_content r fn = ((Some r', b, fn'), fl) -> mu (Some r') < mu r) ->
+    (forall r fn r' b fn' fl, layout_content r fn = ((r', b, fn'), fl) -> fn' <= F) ->
+    forall b right,
+    exists pm' pages,
+      make_all_pages R R_eqb layout_content (blank_of_report_loop true overflow flags) state_changed
+        (first_round_fuel R mu F) (initial_page_maker R b right) 0 0 0 [] = Ok (pm', pages) /\
+      1 <= length pages <= F + 2 * mu None + 4.
+Proof.
+  intros R R_eqb lc ov flags sc mu F Hp Hf b right.
+  apply (page_loop_terminates R R_eqb lc (blank_of_report_loop true ov flags) sc mu F Hp Hf
+           (blank_of_report_loop_ok ov flags)).
+Qed.
